@@ -653,3 +653,35 @@ def prestep_scratch_reset(db, cx, rule):
             cx.ob(rule, "PreStepExecutor recomputes the step limit / macro xs",
                   okp, "calc_physics_step_limit on every non-errored path", short(f.loc),
                   path=f.path_locs(path))
+
+
+def primaries_handoff(db, cx, rule):
+    """The per-stream staging buffer for primaries only ever grows; `count` says how much of it
+    belongs to the event being inserted.  It must be the size of the span that is copied into
+    the buffer - not a property of the buffer - otherwise primaries of an earlier event on the
+    same stream are replayed (history / stream-assignment dependence)."""
+    PCOUNT = C + "PrimaryStateData::count"
+    fs = db.get(C + "ExtendFromPrimariesAction::insert_impl")
+    cx.require(fs, "anchor ExtendFromPrimariesAction::insert_impl not found")
+    for f in fs:
+        tag = f.inst.split("<")[-1][:30]
+        prim = [p["n"] for p in f.r["params"] if "Primary" in p["ty"]]
+        ws = [(b, i, ev) for (b, i, ev) in f.events("write") if path_leaf(ev.get("path")) == PCOUNT]
+        copies = [ev for (_b, _i, ev) in f.events("call") if ev["callee"].startswith(C + "Copier")
+                  and not ev.get("ctor")]
+        copied = set()
+        for ev in copies:
+            for a in ev.get("args", []):
+                copied |= set(local_refs(a.get("refs", [])))
+        ok = bool(ws) and bool(prim) and bool(copied)
+        d = []
+        for (_b, _i, w) in ws:
+            src = set(local_refs(w.get("refs", [])))
+            good = bool(src) and src <= copied and src <= set(prim) and \
+                any(c.endswith("::size") for c in w.get("calls", []))
+            d.append("count = %s" % w.get("rhs"))
+            ok = ok and good
+        cx.ob(rule, "insert_impl: the pending count is the size of the span that is copied [%s]" % tag,
+              ok, "; ".join(d) + "; copied: %s" % sorted(copied), short(f.loc),
+              why="a count taken from the (never shrinking) staging buffer replays the tail of an "
+                  "earlier event's primaries inside the next event on that stream")
